@@ -65,7 +65,8 @@ impl Attributes {
 
     /// Is this a long file name fragment?
     pub fn is_lfn(self) -> bool {
-        (self.0 & Self::LFN) == Self::LFN
+        // ATTR_LONG_NAME_MASK also covers the directory and archive bits
+        (self.0 & (Self::LFN | Self::DIRECTORY | Self::ARCHIVE)) == Self::LFN
     }
 }
 
